@@ -49,20 +49,20 @@ type Cfg struct {
 	PreWrite    *WritePlan        `json:"preWrite"` // issued the moment serving starts
 	StartedFile string            `json:"startedFile"`
 	UnsetEnv    []string          `json:"unsetEnv"` // emulate an older plugin that does not know these variables
-	TmpDir      string            `json:"tmpDir"` // private sandbox: becomes this process' TMPDIR (the host's own TMPDIR would otherwise win in the inherited environment)
+	TmpDir      string            `json:"tmpDir"`   // private sandbox: becomes this process' TMPDIR (the host's own TMPDIR would otherwise win in the inherited environment)
 
 	// raw
-	LineHex    string `json:"lineHex"`
-	StderrHex  string `json:"stderrHex"`
-	After      string `json:"after"` // exit | hang | closeStdout
-	ExitCode   int    `json:"exitCode"`
-	DelayMs    int    `json:"delayMs"`
-	EnvDumpTo  string `json:"envDumpTo"`
-	ImpostorOf string `json:"impostorOf"` // netrpc | grpc
-	Plaintext  bool   `json:"plaintext"`
-	ImpSaveTo        string `json:"impSaveTo"`        // impostor: write the served certificate and key here
-	ImpServeFrom     string `json:"impServeFrom"`     // impostor: serve with the certificate and key saved there (by an earlier launch)
-	ImpAnnounceServed bool  `json:"impAnnounceServed"` // announce the certificate actually served (a well-behaved plugin)
+	LineHex           string `json:"lineHex"`
+	StderrHex         string `json:"stderrHex"`
+	After             string `json:"after"` // exit | hang | closeStdout
+	ExitCode          int    `json:"exitCode"`
+	DelayMs           int    `json:"delayMs"`
+	EnvDumpTo         string `json:"envDumpTo"`
+	ImpostorOf        string `json:"impostorOf"` // netrpc | grpc
+	Plaintext         bool   `json:"plaintext"`
+	ImpSaveTo         string `json:"impSaveTo"`         // impostor: write the served certificate and key here
+	ImpServeFrom      string `json:"impServeFrom"`      // impostor: serve with the certificate and key saved there (by an earlier launch)
+	ImpAnnounceServed bool   `json:"impAnnounceServed"` // announce the certificate actually served (a well-behaved plugin)
 }
 
 type LegacyCfg struct {
